@@ -115,8 +115,11 @@ func (w *FindRules) Do(ctx *Context, loc *Location) {
 			eventPattern := rule.When.Pattern
 			bss, err = Matches(ctx, eventPattern, w.Event)
 			if err != nil {
-				w.Disposition = &Condition{err.Error(), "fatal"}
-				return
+				// A rule with a 'when' that can't be matched
+				// must not break event processing for every
+				// other rule.
+				Log(ERROR, ctx, "FindRules.Do", "location", loc.Name, "rid", id, "error", err)
+				continue
 			}
 		} else {
 			// Scheduled rule (triggered)
